@@ -20,4 +20,5 @@ const (
 	ErrTextYearCoefficientMustBePositive      = "year coefficient should be non-zero and positive value %s"
 	ErrTextEndPhaseParamNotAllowed            = "adding phase with equal values with end phase is not allowed %s"
 	ErrTextNilMinter                          = "stored minter should not be nil"
+	ErrTextPhaseShorterThanOneBlock           = "phase with year coefficient %s is shorter than one block with %d blocks per year"
 )
